@@ -1136,7 +1136,6 @@ func c14OneLine(tm string) string {
 }
 
 func c14(c *Ctx) {
-	findings := os.Getenv("VERIF_FINDINGS") != ""
 	c.Rule = "templated .tm grammars generated at index level and rendered as text: 2-4 terminals, 2-6 nonterminals (1-2 inputs, with and without no-eoi), " +
 		"0-2 global %flag parameters (no default / = true / = false), 0-2 %lookahead flags, 0-2 inline `flag X [= v]` parameters per nonterminal with names shared " +
 		"between nonterminals (propagation by name), 1-3 alternatives of 0-3 symbols (the last one a predicate-free terminal-only base case in 4 of 5 nonterminals so that most " +
@@ -1147,77 +1146,83 @@ func c14(c *Ctx) {
 		"compiler.Compile in a child process (answers ok+rules / err / fatal). (1) `inst`: status and instantiated rules vs the Lean mirror pipeline, up to nonterminal " +
 		"naming and block order, and the mirror's lookahead-propagation certificate (hypothesis of C14_propagate_args_sound_partial) must hold. (2) for every ok grammar every terminal string up to length 5 (6 with two terminals) is tested: template semantics at the default valuation " +
 		"(Go oracle c14Sem, also compared with the Lean executable semantics `sem`) vs Gram.Derives on the REAL rules. non-trivial = ok grammar with a predicate that is " +
-		"false for some reachable instance or a nonterminal instantiated at least twice; distinct by grammar text. Mirrored quirk (finding " + c14AliasToken +
-		", fixed probe case): PropagateLookaheads' `never provided` check reads an aliased buffer, such grammars end in err/ok/log.Fatal exactly as the model predicts."
+		"false for some reachable instance or a nonterminal instantiated at least twice; distinct by grammar text."
 
 	w := &c14Worker{}
 	defer w.stop()
 
-	// probe for the dead-instance finding
-	{
-		g := c14DeadWitness()
-		ans := w.call(g.TM("c14probe"))
-		defect := false
+	// ---- probes on the fixed witnesses of the three findings. While the real code misbehaves on a witness, ONE
+	// violation carrying the finding's token is reported (./check prints KNOWN-FINDING once it is listed) and the
+	// corresponding input class is treated as described in c.Rule; once a probe passes, the class is included fully.
+	probe := func(g *c14Gram, name string) (string, *Gram) {
+		ans := w.call(g.TM(name))
 		if strings.HasPrefix(ans, "ok ") {
 			if real, ok := c14ParseProto(strings.TrimPrefix(ans, "ok ")); ok && len(real.Inputs) > 0 {
-				defect = real.Derives(real.Inputs[0].Sym, []int{2}) // "b"
+				return ans, real
 			}
 		}
-		c.Extra["dead_instance_probe_failed"] = defect
-		if defect {
-			c.Notes = append(c.Notes, "probe FAILED on the real compiler: `%flag V; N0: 'a' B<+V> | 'b' B<~V>; B<V>: [V] 'c';` accepts `b` (B with V=false has no enabled alternative "+
-				"and is instantiated as an EMPTY rule instead of having no rule) "+c14DeadToken)
-			c.Rule += " AVOIDED CLASS (finding " + c14DeadToken + ", probe failed): grammars in which some reachable instance has NO enabled alternative are still compared " +
-				"structurally (the mirror reproduces the empty rule) but are excluded from the semantic comparison; VERIF_FINDINGS=1 includes and flags them."
-			if findings {
-				c.Violate(c14DeadToken+" an instance without enabled alternatives derives the empty string: input N0: `b` is derivable in the instantiated rules but is NOT in the template language",
-					c14DeadToken+" "+c14OneLine(g.TM("c14probe"))+" :: b")
-			}
-		}
+		return ans, nil
 	}
-
-	// probe for the requiredFlags aliasing defect of PropagateLookaheads (mirrored by the model, see
-	// Templates.lean requiredAliased): the grammar must be rejected with "lookahead flag L is never provided".
-	{
-		g := c14AliasWitness()
-		ans := w.call(g.TM("c14alias"))
-		defect := !strings.HasPrefix(ans, "err")
-		c.Extra["la_required_alias_probe_failed"] = defect
-		c.Case("inst "+g.Proto()+" :: "+map[bool]string{true: "fatal", false: "err"}[ans == "fatal"], "match", "")
-		if defect {
-			c.Notes = append(c.Notes, "probe FAILED on the real compiler: `"+c14OneLine(g.TM("c14alias"))+"` is answered `"+ans+"` instead of the error "+
-				"\"lookahead flag L is never provided\": PropagateLookaheads keeps every nonterminal's requiredFlags as a slice of ONE reuse buffer that later "+
-				"BitSet.Slice calls overwrite, so step 3 checks clobbered data; Instantiate then dies in log.Fatal(\"grammar inconsistency on TakeFrom\") "+c14AliasToken)
-			if findings {
-				c.Violate(c14AliasToken+" PropagateLookaheads misses `lookahead flag L is never provided` (requiredFlags aliases the reuse buffer); the compiler then exits in log.Fatal: answer `"+ans+"`",
-					c14AliasToken+" "+c14OneLine(g.TM("c14alias")))
-			}
+	dg, ag, sg := c14DeadWitness(), c14AliasWitness(), c14ShortWitness()
+	dAns, dReal := probe(dg, "c14probe")
+	aAns, _ := probe(ag, "c14alias")
+	sAns, sReal := probe(sg, "c14short")
+	deadDefect := dReal != nil && dReal.Derives(dReal.Inputs[0].Sym, []int{2})          // accepts "b"
+	aliasDefect := !strings.HasPrefix(aAns, "err")                                      // must be rejected: "lookahead flag L is never provided"
+	shortDefect := sReal != nil && !sReal.Derives(sReal.Inputs[0].Sym, []int{1, 3, 3}) // compiles, and rejects "acc"
+	c.Extra["dead_instance_probe_failed"] = deadDefect
+	c.Extra["la_required_alias_probe_failed"] = aliasDefect
+	c.Extra["la_entry_shortcircuit_probe_failed"] = shortDefect
+	// which mirrored defects the Lean model has to reproduce
+	quirks := map[bool]string{true: "A", false: "-"}[aliasDefect] + map[bool]string{true: "S", false: "-"}[shortDefect]
+	c.Extra["model_quirks"] = quirks
+	ansTail := func(ans string) string {
+		switch {
+		case ans == "fatal":
+			return "fatal"
+		case strings.HasPrefix(ans, "err"):
+			return "err"
+		case strings.HasPrefix(ans, "ok "):
+			return strings.TrimPrefix(ans, "ok ")
 		}
+		return ans
 	}
-
-	// probe for the entryPoints short-circuit
-	shortDefect := false
-	{
-		g := c14ShortWitness()
-		ans := w.call(g.TM("c14short"))
-		if strings.HasPrefix(ans, "ok ") {
-			if real, ok := c14ParseProto(strings.TrimPrefix(ans, "ok ")); ok && len(real.Inputs) > 0 {
-				shortDefect = !real.Derives(real.Inputs[0].Sym, []int{1, 3, 3}) // "acc"
-			}
-		}
-		c.Extra["la_entry_shortcircuit_probe_failed"] = shortDefect
-		if shortDefect {
-			c.Notes = append(c.Notes, "probe FAILED on the real compiler: `"+c14OneLine(g.TM("c14short"))+"` compiles and rejects `acc` (with `X : U | %empty` it is "+
-				"rejected with \"cannot propagate lookahead flag L through nonterminal X\"): entryPoints' `ret = ret && entryPoints(c)` stops at the first empty "+
-				"alternative, later alternatives are never scanned, the flag silently does not reach U "+c14ShortToken)
-			c.Rule += " AVOIDED CLASS (finding " + c14ShortToken + ", probe failed): grammars with lookahead flags in which an alternative starting with a nonterminal " +
-				"comes after an empty alternative of the same nonterminal are compared structurally only (`instq`: the mirror reproduces the scan order; no certificate, " +
-				"no semantic comparison); VERIF_FINDINGS=1 includes and flags them."
-			if findings {
-				c.Violate(c14ShortToken+" a lookahead flag is silently dropped behind an empty alternative: input N0: `acc` is in the template language but is NOT derivable in the instantiated rules",
-					c14ShortToken+" "+c14OneLine(g.TM("c14short"))+" :: acc")
-			}
-		}
+	c.Case("inst "+quirks+" "+dg.Proto()+" :: "+ansTail(dAns), "match", "")
+	c.Case("inst "+quirks+" "+ag.Proto()+" :: "+ansTail(aAns), "match", "")
+	if shortDefect {
+		c.Case("instq "+quirks+" "+sg.Proto()+" :: "+ansTail(sAns), "match", "")
+	} else {
+		c.Case("inst "+quirks+" "+sg.Proto()+" :: "+ansTail(sAns), "match", "")
+	}
+	if deadDefect {
+		c.Notes = append(c.Notes, "probe FAILED on the real compiler: `"+c14OneLine(dg.TM("c14probe"))+"` accepts `b` (B with V=false has no enabled alternative "+
+			"and is instantiated as an EMPTY rule instead of having no rule) "+c14DeadToken)
+		c.Rule += " AVOIDED CLASS (finding " + c14DeadToken + ", probe failed): grammars in which some reachable instance has NO enabled alternative are still compared " +
+			"structurally (the mirror reproduces the empty rule) but are excluded from the semantic comparison while the probe fails."
+		c.Violate(c14DeadToken+" an instance without enabled alternatives is instantiated as an EMPTY rule (doExpr: Kind = Empty) and derives the empty string: "+
+			"input N0: `b` is derivable in the instantiated rules but is NOT in the template language at the default valuation",
+			c14DeadToken+" "+c14OneLine(dg.TM("c14probe"))+" :: b")
+	}
+	if aliasDefect {
+		c.Notes = append(c.Notes, "probe FAILED on the real compiler: `"+c14OneLine(ag.TM("c14alias"))+"` is answered `"+ansTail(aAns)+"` instead of the error "+
+			"\"lookahead flag L is never provided\": PropagateLookaheads keeps every nonterminal's requiredFlags as a slice of ONE reuse buffer that later "+
+			"BitSet.Slice calls overwrite, so step 3 checks clobbered data; Instantiate then dies in log.Fatal(\"grammar inconsistency on TakeFrom\") "+c14AliasToken)
+		c.Rule += " MIRRORED DEFECT (finding " + c14AliasToken + ", probe failed): PropagateLookaheads' `never provided` check reads an aliased buffer; such grammars " +
+			"end in err/ok/log.Fatal exactly as the model (Quirks.alias) predicts and stay in the stream."
+		c.Violate(c14AliasToken+" PropagateLookaheads does not report `lookahead flag L is never provided` (requiredFlags aliases the reuse buffer); "+
+			"the compiler then exits in log.Fatal(\"grammar inconsistency on TakeFrom\"): answer `"+ansTail(aAns)+"`, expected an error",
+			c14AliasToken+" "+c14OneLine(ag.TM("c14alias")))
+	}
+	if shortDefect {
+		c.Notes = append(c.Notes, "probe FAILED on the real compiler: `"+c14OneLine(sg.TM("c14short"))+"` compiles and rejects `acc` (with `X : U | %empty` it is "+
+			"rejected with \"cannot propagate lookahead flag L through nonterminal X\"): entryPoints' `ret = ret && entryPoints(c)` stops at the first empty "+
+			"alternative, later alternatives are never scanned, the flag silently does not reach U "+c14ShortToken)
+		c.Rule += " AVOIDED CLASS (finding " + c14ShortToken + ", probe failed): grammars with lookahead flags in which an alternative starting with a nonterminal " +
+			"comes after an empty alternative of the same nonterminal are compared structurally only (`instq`: the mirror (Quirks.short) reproduces the scan order; " +
+			"no certificate, no semantic comparison) while the probe fails."
+		c.Violate(c14ShortToken+" a lookahead flag is silently dropped behind an empty alternative (entryPoints: `ret = ret && entryPoints(c)`): "+
+			"input N0: `acc` is in the template language at the default valuation but is NOT derivable in the instantiated rules; with `X : U | %empty` the grammar is rejected",
+			c14ShortToken+" "+c14OneLine(sg.TM("c14short"))+" :: acc")
 	}
 
 	n := c.N(400, 40000)
@@ -1235,21 +1240,21 @@ func c14(c *Ctx) {
 		switch {
 		case ans == "fatal":
 			c.Count("status fatal")
-			c.Case("inst "+src+" :: fatal", "match", "")
+			c.Case("inst "+quirks+" "+src+" :: fatal", "match", "")
 			continue
 		case strings.HasPrefix(ans, "err"):
 			c.Count("status err")
-			c.Case("inst "+src+" :: err", "match", "")
+			c.Case("inst "+quirks+" "+src+" :: err", "match", "")
 			continue
 		case !strings.HasPrefix(ans, "ok "):
 			c.Count("status " + ans)
-			c.Case("inst "+src+" :: "+ans, "match", "")
+			c.Case("inst "+quirks+" "+src+" :: "+ans, "match", "")
 			continue
 		}
 		proto := strings.TrimPrefix(ans, "ok ")
 		real, ok := c14ParseProto(proto)
 		if !ok {
-			c.Case("inst "+src+" :: unparsable", "match", "")
+			c.Case("inst "+quirks+" "+src+" :: unparsable", "match", "")
 			continue
 		}
 		c.Count("status ok")
@@ -1287,10 +1292,10 @@ func c14(c *Ctx) {
 		if short {
 			c.Count("entry-shortcircuit-class grammars")
 		}
-		if short && !findings {
-			c.Case("instq "+src+" :: "+proto, "match", key)
+		if short {
+			c.Case("instq "+quirks+" "+src+" :: "+proto, "match", key)
 		} else {
-			c.Case("inst "+src+" :: "+proto, "match", key)
+			c.Case("inst "+quirks+" "+src+" :: "+proto, "match", key)
 		}
 
 		dead := s.anyDead()
@@ -1301,17 +1306,11 @@ func c14(c *Ctx) {
 		if g.NT == 3 {
 			L = 6
 		}
-		if (!dead && !short) || findings {
+		if (!dead || !deadDefect) && !short {
 			bad, why := c14Semantic(g, s, real, L)
 			c.Count("semantic comparisons")
 			if why != "" {
-				tok := ""
-				if dead {
-					tok = c14DeadToken + " "
-				} else if short {
-					tok = c14ShortToken + " "
-				}
-				c.Violate(tok+"template instantiation changed the language: "+why, tok+c14OneLine(text)+" :: "+bad)
+				c.Violate("template instantiation changed the language: "+why, c14OneLine(text)+" :: "+bad)
 			}
 		}
 		// the oracle's languages against the Lean executable semantics
